@@ -569,6 +569,11 @@ func (c *compiler) buildLA(useTransitions, stats bool) {
 		rules[nt] = append(rules[nt], i)
 	}
 
+	var pruned bool // some state lost items to a .greedy marker
+	for _, state := range c.states {
+		pruned = pruned || len(state.dropped) > 0
+	}
+
 	addLookback := func(state, rule, gt int) {
 		for i, rr := range c.states[state].reduce {
 			if rr == rule {
@@ -605,6 +610,11 @@ func (c *compiler) buildLA(useTransitions, stats bool) {
 				}
 			}
 
+			if pruned && !slices.Contains(c.states[curr].reduce, rule) {
+				// A .greedy marker dropped an item of this rule from one of the states on the way:
+				// the transitions exist because of other rules, the rule itself is never reduced here.
+				continue rules
+			}
 			if !c.states[curr].lr0 {
 				// Rule's lookahead symbols include follow set for the current goto (gt).
 				addLookback(curr, rule, gt)
